@@ -7,6 +7,7 @@ sequence, or is in an exemption table whose secondary obligation is re-checked o
   C07.wrapper  fields of IPhreeqc/PHRQ_io vs. must-write set of UnLoadDatabase() + test_db() (run on the success path)
   C07.order    UnLoadDatabase dominates read_database in load_db/load_db_str; clean_up < init < do_initialize;
                test_db is called on the n == 0 path of LoadDatabase/LoadDatabaseString
+  C07.survivor documented survivors (id, global output switches, user-set file names) are not written by the reload functions
   C07.mirror   every engine-side write of a mirrored PRINT/KNOBS option is paired with the PHRQ_io setter
 Not decided: equality of results after the load beyond reset completeness (a reset to a wrong value, allocator effects).
 """
@@ -268,6 +269,46 @@ def run(P, R, tier):
     check_class(P, R, "C07.wrapper", "IPhreeqc", mustw, wt["fields"], mw)
 
     mirror_rule(P, R, "C07.mirror", wt, un)
+    survivor_rule(P, R, wt)
+
+
+def survivor_rule(P, R, wt):
+    """Documented survivors of a database load (instance id, global output switches, user-set file names) are never written by
+    the reload path itself; the only accepted writes are the save / override / restore idiom of LoadDatabase* (whose restore
+    is checked by C08.restore)."""
+    R.rule("C07.survivor", "documented survivors of a load are not written by the reload functions (except save/override/restore)", minimum=14)
+    reload_fns = ["IPhreeqc::UnLoadDatabase", "IPhreeqc::load_db", "IPhreeqc::load_db_str", "IPhreeqc::LoadDatabase", "IPhreeqc::LoadDatabaseString", "IPhreeqc::test_db"]
+    fns = []
+    for q in reload_fns:
+        fs = P.fns_named(q)
+        if len(fs) != 1:
+            R.anchor_missing("C07.survivor", "%s: %d definitions" % (q, len(fs)))
+            continue
+        fns.append(fs[0])
+    for name, row in sorted(wt["fields"].items()):
+        if row.get("class") != "survivor":
+            continue
+        bad = []
+        for f in fns:
+            restores = set()
+            for t, how, line, n in T.writes(f["body"]):
+                root, steps = T.access_path(t)
+                if root == ("this",) and steps and steps[0][0] == "f" and steps[0][1].split("::")[-1] == name and how == "=" and n[0] == "Bin":
+                    rv = T.strip_casts(n[4])
+                    if T.is_node(rv) and rv[0] == "Ref" and rv[2] == "local":
+                        restores.add(name)
+            for t, how, line, n in T.writes(f["body"]):
+                root, steps = T.access_path(t)
+                if root == ("this",) and steps and steps[0][0] == "f" and steps[0][1].split("::")[-1] == name:
+                    if name in restores and how == "=":
+                        continue          # save / override / restore idiom
+                    bad.append((f, line, how))
+        if bad:
+            f, line, how = bad[0]
+            R.violation("C07.survivor", name, "%s writes the documented survivor `%s` (%s, line %d): a value the user set before LoadDatabase does not survive the load"
+                        % (f["q"], name, how, line), file=f["file"], line=line, function=f["q"])
+        else:
+            R.ok("C07.survivor", name, "not written by the reload functions")
 
 
 def mirror_rule(P, R, RULE, wt, un, only=None, minimum=4):
